@@ -448,6 +448,18 @@ def write_evidence(prop, tier, seed, wall, total_obl, discharged, functions, axi
                          "examples": x.get("samples", [])[:3]} for x in standin_out] or cov["samples"]
     for k_ in ("obligations", "discharged"):
       cov["unbounded_" + k_] = cov.pop(k_)
+  else:
+    # unbounded obligations exist; if the manifest claims less than proof level for this property (most of it is bounded or
+    # stand-in only), the evidence is reported at the claimed level - the obligation counts stay in the file
+    try:
+      claimed = [c for c in json.load(open(os.path.join(VERIF, "MANIFEST.json")))["checks"] if c["property_id"] == prop]
+      cat = claimed[0]["level_claimed"]["category"] if claimed else "proof"
+    except Exception:
+      cat = "proof"
+    if cat in ("other", "exploration"):
+      ev["level"] = "other"
+      cov["explanation"] = ("only part of this property is under unbounded contracts (obligations / discharged above); the rest is "
+                            "bounded symbolic units and bounded stand-ins, so the run is reported below proof level.  " + cov["explanation"])
   os.makedirs(os.path.join(VERIF, "evidence"), exist_ok=True)
   with open(os.path.join(VERIF, "evidence", prop + ".json"), "w") as f:
     json.dump(ev, f, indent=1, default=str)
